@@ -21,7 +21,7 @@
      iteration), VisitForStmt (`bis` compiled twice, after the body, each in a scope of its own),
      VisitForRangeStmt (protected temporary and loop variable), VisitBreakContinueStmt/exitNestedScopes
      (a continue keeps the scope of counting and for-each loops: curLoopScopeSurvives),
-     VisitReturnStmt.  State of /repo: after the repairs c2054d3 2f9971e bf84b8a 597753d 39a39c6 6711de1. *)
+     VisitReturnStmt.  State of /repo: after the repairs c2054d3 2f9971e bf84b8a 597753d 39a39c6 6711de1 91b5d4a d296fb2 7366b9f. *)
 From Coq Require Import List NArith Bool Arith.
 Import ListNotations.
 From DDP Require Import Rt.Heap.
@@ -205,20 +205,68 @@ Definition use_of (r : res) : instr :=
 
 Fixpoint memv (x : var) (l : list var) : bool :=
   match l with [] => false | y :: r => Nat.eqb x y || memv x r end.
-(* the variables passed by Referenz in a call *)
-Fixpoint ref_vars (a : args) : list var :=
-  match a with ANil => [] | AVal _ r => ref_vars r | ARef x r => x :: ref_vars r end.
 (* rootVarDecl of a by-value argument: a plain variable.  An element read `(x an der Stelle k)` in expression position
    is a BinaryExpr (BIN_INDEX), not an ast.Indexing, so rootVarDecl answers nil for it and the element is copied. *)
 Definition root_var (e : expr) : option var :=
   match e with EVar x => Some x | _ => None end.
-(* mayElideArgCopy (91b5d4a): the storage of a non-temporary argument is handed to a constant parameter only if it is
-   (part of) a local variable: not a global, not a Referenz parameter of the current function, not also (part of) a
-   Referenz argument of the same call *)
-Definition may_elide (cs : cstate) (refs : list var) (e : expr) : bool :=
+(* mentionsVar (d296fb2): the variable occurs anywhere in the expression, also inside nested calls *)
+Fixpoint mentions (x : var) (e : expr) {struct e} : bool :=
+  match e with
+  | EPrim | ELit _ => false
+  | EVar y | EPart y _ => Nat.eqb x y
+  | EUse1 a | EDerive a _ | EElem a _ => mentions x a
+  | EUse2 a b | EConcat a b | EAnd a b => mentions x a || mentions x b
+  | EBuild _ l => mentions_xs x l
+  | ECall _ a | EExt a _ => mentions_args x a
+  | EFalls c a b => mentions x c || mentions x a || mentions x b
+  end
+with mentions_xs (x : var) (l : exprs) {struct l} : bool :=
+  match l with XNil => false | XCons e r => mentions x e || mentions_xs x r end
+with mentions_args (x : var) (a : args) {struct a} : bool :=
+  match a with
+  | ANil => false
+  | AVal e r => mentions x e || mentions_args x r
+  | ARef y r => Nat.eqb x y || mentions_args x r
+  end.
+(* some argument of the call other than the one at position i mentions x (j: position of the head of a) *)
+Fixpoint others_mention (x : var) (a : args) (i j : nat) : bool :=
+  match a with
+  | ANil => false
+  | AVal e r => (negb (Nat.eqb i j) && mentions x e) || others_mention x r i (S j)
+  | ARef y r => (negb (Nat.eqb i j) && Nat.eqb x y) || others_mention x r i (S j)
+  end.
+(* mayElideArgCopy (91b5d4a, d296fb2): the storage of a non-temporary argument is handed to a constant parameter only
+   if it is a local variable: not a global, not a Referenz parameter of the current function, and no other argument of
+   the same call mentions the variable (it may be passed by Referenz there, to this call or to a nested one that is
+   evaluated later and changes it) *)
+Definition may_elide (cs : cstate) (all : args) (i : nat) (e : expr) : bool :=
   match root_var e with
-  | Some x => negb (memv x (c_glob cs)) && negb (memv x (c_refs cs)) && negb (memv x refs)
+  | Some x => negb (memv x (c_glob cs)) && negb (memv x (c_refs cs)) && negb (others_mention x all i 0)
   | None => false
+  end.
+(* callFinder / operandRootVarDecl / laterOperandMayChange (7366b9f): a non-temporary left operand of a binary operator
+   is deep-copied into a scope temporary BEFORE the right operand is evaluated iff the right operand contains a call and
+   the variable the left operand is (a part of) is a global, bound to a Referenz, mentioned in the right operand, or unknown *)
+Fixpoint has_call (e : expr) {struct e} : bool :=
+  match e with
+  | EPrim | EVar _ | EPart _ _ | ELit _ => false
+  | EUse1 a | EDerive a _ | EElem a _ => has_call a
+  | EUse2 a b | EConcat a b | EAnd a b => has_call a || has_call b
+  | EBuild _ l => has_call_xs l
+  | ECall _ _ | EExt _ _ => true
+  | EFalls c a b => has_call c || has_call a || has_call b
+  end
+with has_call_xs (l : exprs) {struct l} : bool :=
+  match l with XNil => false | XCons e r => has_call e || has_call_xs r end.
+Fixpoint operand_root (e : expr) : option var :=
+  match e with EVar x | EPart x _ => Some x | EElem a _ => operand_root a | _ => None end.
+Definition early_copy (cs : cstate) (a b : expr) (ra : res) : bool :=
+  match ra with
+  | RRef _ => has_call b && match operand_root a with
+                            | Some x => memv x (c_glob cs) || memv x (c_refs cs) || mentions x b
+                            | None => true
+                            end
+  | _ => false
   end.
 Definition add_glob (x : var) (cs : cstate) : cstate :=
   mkC (c_scopes cs) (c_next cs) (c_env cs) (c_loop cs) (c_fun cs) (x :: c_glob cs) (c_refs cs).
@@ -266,6 +314,24 @@ Section Compile.
     | EConcat a b =>
       match cexpr a cs with
       | Some (ia, ra, cs1) =>
+        if early_copy cs1 a b ra then
+          (* the value of the left operand is taken before the call in the right operand runs: a registered temporary,
+             which the runtime function empties like any temporary left operand *)
+          match ra with
+          | RRef pa =>
+            let (c, cs1a) := fresh cs1 in
+            match cexpr b (add_temp c false cs1a) with
+            | Some (ib, rb, cs2) =>
+              match res_place rb with
+              | Some pb => let (d, cs3) := fresh cs2 in
+                           Some (iseq [ia; ICopy c pa; ib; IConcat d c pb], RTemp d, add_temp d false cs3)
+              | None => None
+              end
+            | None => None
+            end
+          | _ => None
+          end
+        else
         match cexpr b cs1 with
         | Some (ib, rb, cs2) =>
           match ra, res_place rb with
@@ -293,7 +359,7 @@ Section Compile.
     | ECall f a =>
       match fun_sig f with
       | Some (params, _) =>
-        match cargs (ref_vars a) params a cs with
+        match cargs a 0 params a cs with
         | Some (ia, locs, cs1) =>
           match inline f locs cs1 with
           | Some (ic, r, cs2) => Some (ISeq ia ic, r, cs2)
@@ -392,7 +458,7 @@ Section Compile.
     end
   (* arguments of a DDP function: by value => claimOrCopy into a fresh, unregistered alloca (the callee
      frees it); elided => the argument's own location is passed; Referenz => the variable's location *)
-  with cargs (refs : list var) (ps : list (var * mode * bool)) (a : args) (cs : cstate) {struct a}
+  with cargs (all : args) (i : nat) (ps : list (var * mode * bool)) (a : args) (cs : cstate) {struct a}
        : option (instr * list (option place) * cstate) :=
     match a, ps with
     | ANil, [] => Some (ISkip, [], cs)
@@ -403,7 +469,7 @@ Section Compile.
         | MRef, _ => None
         | _, RPrim =>
           if np then None else
-          match cargs refs ps' r cs1 with
+          match cargs all (S i) ps' r cs1 with
           | Some (ir, locs, cs2) => Some (ISeq ie ir, None :: locs, cs2)
           | None => None
           end
@@ -411,7 +477,7 @@ Section Compile.
           let (dest, cs2) := fresh cs1 in
           match claim_or_copy dest re cs2 with
           | Some (icc, cs3) =>
-            match cargs refs ps' r cs3 with
+            match cargs all (S i) ps' r cs3 with
             | Some (ir, locs, cs4) => Some (iseq [ie; icc; ir], Some (PSlot dest) :: locs, cs4)
             | None => None
             end
@@ -419,13 +485,13 @@ Section Compile.
           end
         | MConst, RTemp _ =>
           (* a temporary: its own storage is passed; it stays a temporary of the caller *)
-          match cargs refs ps' r cs1 with
+          match cargs all (S i) ps' r cs1 with
           | Some (ir, locs, cs2) => Some (ISeq ie ir, res_place re :: locs, cs2)
           | None => None
           end
         | MConst, RRef p =>
-          if may_elide cs1 refs e then
-            match cargs refs ps' r cs1 with
+          if may_elide cs1 all i e then
+            match cargs all (S i) ps' r cs1 with
             | Some (ir, locs, cs2) => Some (ISeq ie ir, Some p :: locs, cs2)
             | None => None
             end
@@ -433,7 +499,7 @@ Section Compile.
             (* the argument may change while the callee runs: the callee gets a deep copy, which stays a temporary
                of the CALLER's scope (the callee does not free a parameter it judged constant) *)
             let (dest, cs2) := fresh cs1 in
-            match cargs refs ps' r (add_temp dest false cs2) with
+            match cargs all (S i) ps' r (add_temp dest false cs2) with
             | Some (ir, locs, cs3) => Some (iseq [ie; ICopy dest p; ir], Some (PSlot dest) :: locs, cs3)
             | None => None
             end
@@ -443,7 +509,7 @@ Section Compile.
     | ARef x r, (_, MRef, _) :: ps' =>
       match lookup (c_env cs) x with
       | Some p =>
-        match cargs refs ps' r cs with
+        match cargs all (S i) ps' r cs with
         | Some (ir, locs, cs1) => Some (ir, Some p :: locs, cs1)
         | None => None
         end
